@@ -1,9 +1,12 @@
 (* Correspondence checker for C17: does the model reproduce, step by step, what rs.data.encode and
    rs.data.decode emitted (bytes / code points per pushed item and at completion) and how they ended
    (completed, or which exception)?  Executable only. *)
-From Coq Require Import List NArith Bool.
+From Coq Require Import List NArith Arith Bool.
 From RxVerif Require Import Base.Corr Codec.Utf8 Codec.Wrapper.
 Import ListNotations.
+
+Definition run := (option nat * list (list (list N)) * err * bool)%type.
+Definition rlist := list (list N * N).
 
 Inductive c17case :=
 | CRaised     (* the harness itself failed / an exception class the model does not know *)
@@ -12,7 +15,20 @@ Inductive c17case :=
            exception (NoErr = none); did on_completed arrive *)
         (strs : list (list N)) (enc_steps : list (list (list N))) (enc_err : err) (enc_completed : bool)
         (* decode: the same for the byte chunks *)
-        (chunks : list (list N)) (dec_steps : list (list (list N))) (dec_err : err) (dec_completed : bool).
+        (chunks : list (list N)) (dec_steps : list (list (list N))) (dec_err : err) (dec_completed : bool)
+  (* SEVERAL subscriptions of one and the same operator / pipeline object, one after the other.  Every
+     subscription is a `run`: how many inputs were pushed before the subscription was disposed (None = all of
+     them, then on_completed), the items emitted at each step, the exception, did on_completed arrive.
+     Every subscription has to behave like a fresh one (the codec state belongs to the subscription). *)
+| CSubs (e : encoding) (strs : list (list N)) (enc_runs : list run)
+        (chunks : list (list N)) (dec_runs : list run)
+  (* the decode stage as rs.container.json.load_from_file uses it: the strings are the lines of a file, the
+     chunks its 64 KiB read blocks.  Same content as CCase, every byte / code point list run-length coded
+     ((block, repetitions) pairs; a block is one code unit of 1, 2 or 4 bytes, or one code point), since the
+     files are mostly padding. *)
+| CFileRL (e : encoding)
+        (strs : list rlist) (enc_steps : list (list rlist)) (enc_err : err) (enc_completed : bool)
+        (chunks : list rlist) (dec_steps : list (list rlist)) (dec_err : err) (dec_completed : bool).
 
 Definition ns_eqb := list_eqb N.eqb.
 Definition steps_eqb := list_eqb (list_eqb ns_eqb).
@@ -22,10 +38,33 @@ Definition agrees (model : list (list N) * err) (steps : list (list (list N))) (
   steps_eqb (map (fun o => [o]) (fst model)) steps && err_eqb (snd model) e
   && Bool.eqb completed (err_eqb (snd model) NoErr).
 
+(* what the model says about a subscription that is disposed after n inputs, from its answer m for the
+   stream cut after n inputs (which includes the final flush): without exception the flush item is dropped;
+   n items and an exception: it was the flush that raised, the n pushes did not; fewer items: that push raised *)
+Definition cut_short (m : list (list N) * err) (n : nat) : list (list N) * err :=
+  if err_eqb (snd m) NoErr then (removelast (fst m), NoErr)
+  else if n <=? length (fst m) then (fst m, NoErr)
+  else m.
+
+Definition run_agrees {A} (model : list A -> list (list N) * err) (inputs : list A) (r : run) : bool :=
+  match r with
+  | (None, steps, e, completed) => agrees (model inputs) steps e completed
+  | (Some n, steps, e, completed) =>
+      let m := cut_short (model (firstn n inputs)) n in
+      (n <=? length inputs) && steps_eqb (map (fun o => [o]) (fst m)) steps && err_eqb (snd m) e && negb completed
+  end.
+
+Definition unrl (l : rlist) : list N := flat_map (fun p => concat (repeat (fst p) (N.to_nat (snd p)))) l.
+
 Definition c17_check (c : c17case) : bool :=
   match c with
   | CRaised => false
   | CCase e strs enc_steps enc_err enc_completed chunks dec_steps dec_err dec_completed =>
       agrees (encode e strs) enc_steps enc_err enc_completed
       && agrees (decode e chunks) dec_steps dec_err dec_completed
+  | CSubs e strs enc_runs chunks dec_runs =>
+      forallb (run_agrees (encode e) strs) enc_runs && forallb (run_agrees (decode e) chunks) dec_runs
+  | CFileRL e strs enc_steps enc_err enc_completed chunks dec_steps dec_err dec_completed =>
+      agrees (encode e (map unrl strs)) (map (map unrl) enc_steps) enc_err enc_completed
+      && agrees (decode e (map unrl chunks)) (map (map unrl) dec_steps) dec_err dec_completed
   end.
